@@ -46,7 +46,12 @@
 (*  "Secret mounts never appear in the output"    Expected omits them      *)
 (*  "links that lead outside every mount or form cycles make the copy fail *)
 (*   instead of being silently dropped or followed forever"                *)
-(*                                                CopyOK: error iff Expected.err *)
+(*                        CopyOK: Expected.err /\ Expected.hard => error;  *)
+(*                        ~Expected.err => ok (the output must be saved)   *)
+(* DRIFT-ONLY (a trace failing only this is reported as DRIFT):            *)
+(*   CopyDriftOK  a link whose target names nothing at all (dangling)      *)
+(*                makes the copy fail as well - the copier does that       *)
+(*                (lstat), the statement does not speak of it              *)
 (* Not judged (statement silent / generator avoids): a link whose target   *)
 (* path passes THROUGH another link, a link to a path that does not exist  *)
 (* inside a collection mount, whether a directory whose only entries were  *)
@@ -180,9 +185,16 @@ MountEntries(dest, src) ==
 MountHas(src) == LET s == CollPath(src) IN src = <<>> \/ s \in Paths(MountManifest)
                                            \/ \E q \in Paths(MountManifest) : IsPrefix(s \o <<SL>>, q)
 
-OK(ents) == [err |-> FALSE, ents |-> ents]
-Err == [err |-> TRUE, ents |-> {}]
-Merge(rs) == IF \E r \in rs : r.err THEN Err ELSE OK(UNION {r.ents : r \in rs})
+(* A result is [err, hard, ents].  hard: the error is one the statement    *)
+(* names (a link leaving every mount, a cycle); a "soft" error is a link   *)
+(* (or path) naming nothing at all, about which the statement says nothing *)
+(* - the copier fails there too (lstat), but that is not demanded.         *)
+OK(ents) == [err |-> FALSE, hard |-> FALSE, ents |-> ents]
+Err     == [err |-> TRUE, hard |-> TRUE, ents |-> {}]
+ErrSoft == [err |-> TRUE, hard |-> FALSE, ents |-> {}]
+Merge(rs) == IF \E r \in rs : r.err
+             THEN [err |-> TRUE, hard |-> \E r \in rs : r.err /\ r.hard, ents |-> {}]
+             ELSE OK(UNION {r.ents : r \in rs})
 
 (***************************************************************************)
 (* CONTRACT: Expected                                                      *)
@@ -191,7 +203,7 @@ RECURSIVE Den(_, _, _)
 \* dest, p: component sequences below the collection root / below /out; seen: links followed on the way down
 Den(dest, p, seen) ==
     LET n == Node(p)
-    IN CASE n.k = "none" -> Err                                            \* nothing there
+    IN CASE n.k = "none" -> ErrSoft                                        \* nothing there
          [] n.k = "file" -> OK({[dst |-> CollPath(dest), kind |-> "hfile", src |-> CollPath(p)]})
          [] n.k = "dir"  ->
               LET kids == {q \in Children(p) : Where(<<OUT>> \o q).w = "out"}       \* not mount points, not secrets
@@ -205,7 +217,7 @@ Den(dest, p, seen) ==
               ELSE LET loc == Where(TargetPath(<<OUT>> \o p, LinkTarget(n)))
                    IN CASE loc.w = "secret" -> OK({})
                         [] loc.w = "none"   -> Err
-                        [] loc.w = "mnt"    -> IF MountHas(loc.p) THEN OK(MountEntries(dest, loc.p)) ELSE Err
+                        [] loc.w = "mnt"    -> IF MountHas(loc.p) THEN OK(MountEntries(dest, loc.p)) ELSE ErrSoft
                         [] loc.w = "out"    -> Den(dest, loc.p, seen \cup {p})
 Expected == Den(<<>>, <<>>, {})
 
@@ -231,7 +243,7 @@ WalkHostFS(dest, src, maxSymlinks, includeMounts) ==
     LET p == SubSeq(src, 2, Len(src))
         n == Node(p)
         mb == IF includeMounts THEN WalkMountsBelow(dest, src) ELSE OK({})
-    IN CASE n.k = "none" -> Err                                            \* lstat fails
+    IN CASE n.k = "none" -> ErrSoft                                        \* lstat fails
          [] n.k = "link" ->
               IF maxSymlinks < 0 THEN Err                                  \* errTooManySymlinks
               ELSE Merge({mb, WalkMount(dest, TargetPath(src, LinkTarget(n)), maxSymlinks - 1, TRUE)})
@@ -308,7 +320,7 @@ CopyOK(kind, out, nb) ==
     LET ex == Expected
         files == {e \in ex.ents : e.kind \in {"hfile", "mfile"}}
         real == {q \in Paths(out) : ~IsKeep(q)}
-    IN IF ex.err THEN kind = "error"
+    IN IF ex.err THEN (ex.hard => kind = "error")    \* a soft error only: nothing demanded (see CopyDriftOK)
        ELSE /\ kind = "ok"
             /\ real = {e.dst : e \in files}                                         \* FilesOK: same paths
             /\ \A e \in files : Resolved(out, nb, e.dst) = WantBytes(e)             \*          same bytes, by reference
@@ -319,6 +331,9 @@ CopyOK(kind, out, nb) ==
                    \E q \in Paths(out) : IsPrefix(e.dst \o <<SL>>, q)
 
 CandSeq == << <<A>>, <<B>>, <<A, X>>, <<A, Y>>, <<B, X>> >>            \* parents before children
+\* DRIFT-ONLY (no sentence of the statement): a link or path naming nothing makes the copy fail, too
+CopyDriftOK(kind) == Expected.err => kind = "error"
+
 Emit == sc.done => Serialize(<<[nodes |-> [i \in DOMAIN CandSeq |->
                                    [path |-> CandSeq[i], k |-> sc.tree[CandSeq[i]].k, c |-> sc.tree[CandSeq[i]].c,
                                     abs |-> sc.tree[CandSeq[i]].abs, tg |-> sc.tree[CandSeq[i]].tg]],
